@@ -566,3 +566,84 @@ Proof.
   split; [vm_compute; reflexivity|]. split; [|vm_compute; reflexivity].
   unfold sec. cbn [erase clock_ok time_of]. repeat split; lia.
 Qed.
+
+(* ---------------------------------------------------------------- renewal instants, stores of group objects *)
+From Verif Require Import C01.Events.
+
+(* Two more kinds of events may lie between the atomic steps of a schedule
+   (Events.v): ERenew q now - a walk through quota q reads the clock past a
+   renewal instant of a `monthly_renewal` block configured for q; EStore q rq -
+   a group object built for request rq by a transaction that found none is
+   stored into quotaGroups of q.  On this tree neither has an effect (the block
+   is decoded and validated but never handed to the strategy; look-up,
+   construction and store of a group object are one critical section, so a
+   store only ever concerns a key nobody was served on).  Frame: erasing them
+   from ANY schedule - whatever the renewal blocks say, wherever the instants
+   fall, whichever transactions overlap in the creation of a group - leaves the
+   final world and the output of every other step unchanged. *)
+Theorem C01_event_frame : forall f es w,
+  fst (erun f w es) = fst (mrun f w (eerase es)) /\
+  eerase_outs es (snd (erun f w es)) = snd (mrun f w (eerase es)).
+Proof. exact erun_frame. Qed.
+Print Assumptions C01_event_frame.
+
+Theorem C01_event_frame_faithful : event_frame RInert GOnce.
+Proof. exact event_frame_faithful. Qed.
+Print Assumptions C01_event_frame_faithful.
+
+(* ... false when the block is wired into the strategy (seeded change C01-12:
+   max 1 per 10 s, let through at 5 s, renewal instant crossed at 7 s, a second
+   request let through at 7 s - inside the configured window) ... *)
+Theorem C01_renewal_resets_window_refuted : ~ event_frame RResets GOnce.
+Proof. exact event_frame_renewal_resets_refuted. Qed.
+Print Assumptions C01_renewal_resets_window_refuted.
+
+(* ... and false when a late store replaces the group object other first
+   transactions of the group were counted on (seeded change C18-12: max 10, two
+   transactions, both counted, one refused - in both one-at-a-time orders both
+   are let through, C01_example_events) *)
+Theorem C01_group_store_replaces_refuted : ~ event_frame RInert GReplaces.
+Proof. exact event_frame_store_replaces_refuted. Qed.
+Print Assumptions C01_group_store_replaces_refuted.
+
+(* hence the window bound for schedules with renewal instants, group-object
+   stores and metrics collections anywhere: the windows the bound speaks of are
+   the configured ones (length q_win d, pairwise equal or disjoint per key) -
+   no renewal cuts one short *)
+Theorem C01_window_bound_with_events : forall f es clk0,
+  wf_forest f = true -> clock_ok clk0 (erase (eerase es)) ->
+  let w := fst (erun f init es) in
+  forall k d, lookup (fst k) f = Some d ->
+    (forall s, csum k s (charges w) <= q_max d) /\
+    (forall c, In c (charges w) -> c_key c = k ->
+       c_ws c * sec <= c_at c < c_ws c * sec + q_win d) /\
+    (forall c1 c2, In c1 (charges w) -> In c2 (charges w) -> c_key c1 = k -> c_key c2 = k ->
+       c_ws c1 = c_ws c2 \/ c_ws c1 * sec + q_win d <= c_ws c2 * sec
+       \/ c_ws c2 * sec + q_win d <= c_ws c1 * sec) /\
+    (forall s, ws (st w k) = Some s -> cnt (st w k) = csum k s (charges w)).
+Proof.
+  intros f es clk0 Hwf Hclk w. subst w.
+  rewrite (proj1 (erun_frame f es init)).
+  exact (C01_window_bound_with_scrapes f (eerase es) clk0 Hwf Hclk).
+Qed.
+Print Assumptions C01_window_bound_with_events.
+
+(* the two witnesses run: what this tree does, what the variants do, and the
+   verdicts of the two overlapping transactions in both one-at-a-time orders *)
+Example C01_example_events :
+  wf_forest mf = true /\ wf_forest gf = true /\
+  clock_ok 0 (erase (eerase es_renew)) /\ clock_ok 0 (erase (eerase es_store)) /\
+  snd (erun mf init es_renew) = [ONone; OBool true; ONone; ONone; OBool false] /\
+  snd (erun_v RResets GOnce mf init es_renew) = [ONone; OBool true; ONone; ONone; OBool true] /\
+  snd (run gf init [Inc 1 mr1 (5 * sec); Allowed 1 mr1; Inc 1 mr2 (5 * sec); Allowed 1 mr2])
+    = [ONone; OBool true; ONone; OBool true] /\
+  snd (run gf init [Inc 1 mr2 (5 * sec); Allowed 1 mr2; Inc 1 mr1 (5 * sec); Allowed 1 mr1])
+    = [ONone; OBool true; ONone; OBool true] /\
+  snd (erun gf init es_store) = [ONone; ONone; ONone; OBool true; OBool true] /\
+  snd (erun_v RInert GReplaces gf init es_store) = [ONone; ONone; ONone; OBool true; OBool false].
+Proof.
+  split; [vm_compute; reflexivity|]. split; [vm_compute; reflexivity|].
+  split; [unfold es_renew; cbn [eerase erase clock_ok time_of]; unfold sec; repeat split; lia|].
+  split; [unfold es_store; cbn [eerase erase clock_ok time_of]; unfold sec; repeat split; lia|].
+  vm_compute. repeat split; reflexivity.
+Qed.
